@@ -7,6 +7,7 @@
 #include "vt.h"
 #include <memory>
 #include <sys/wait.h>
+#include <signal.h>
 using namespace soplex;
 using namespace vt;
 
@@ -184,6 +185,7 @@ static void runRational(Rng& g, int len)
    }
 }
 
+static void onWatchdog(int) { crashLine("execution did not finish within 120 s (hang)"); _exit(0); }
 int main(int argc, char** argv)
 {
    if(argc < 6) { fprintf(stderr, "usage: lu_drv <real|rational> <seed> <nexec> <len> <out>\n"); return 2; }
@@ -195,8 +197,8 @@ int main(int argc, char** argv)
       pid_t pid = nofork ? 0 : fork();
       if(pid == 0)
       {
-         T().f = fopen(argv[5], "a"); if(!T().f) _exit(2); if(nofork) setvbuf(T().f, nullptr, _IOLBF, 0);
-         if(!nofork) installCrashHandlers();
+         T().f = fopen(argv[5], "a"); if(!T().f) _exit(2); setvbuf(T().f, nullptr, _IOLBF, 1 << 16);
+         if(!nofork) { installCrashHandlers(); signal(SIGALRM, onWatchdog); alarm(120); }
          Rng g(seed * 1000003UL + (unsigned long)e);
          if(wl == "real") runReal(g, len); else if(wl == "stress") { g_forceStress = true; runReal(g, len); } else runRational(g, len);
          T().close(); if(!nofork) _exit(0);
